@@ -144,7 +144,7 @@ def generate(seed, tier, batch):
     nsched = 6 if not big else 10
     scheds = [{"mode": "native"}, {"mode": "far"}, {"mode": "near"}] + [{"mode": "random", "k": i} for i in range(nsched - 3)]
     scheds.append({"mode": "enum", "cap": 60 if not big else 200})
-    return {"kind": "circuit", "n": n, "ops": ops, "mark": mark, "schedules": scheds, "sseed": seed, "foreign_first": r.random() < 0.25}
+    return {"kind": "circuit", "n": n, "ops": ops, "mark": mark, "schedules": scheds, "sseed": seed, "foreign_first": r.random() < 0.25, "values_present": r.random() < 0.3}
 
 
 def gen_xunitary(r, seed):
@@ -254,6 +254,12 @@ def execute(script, w):
         except Exception as ex:  # noqa
             w.log("foreign_error", exc=type(ex).__name__, msg=str(ex)[:200])
     prog = build_program({"n": script["n"], "ops": specops})
+    if script.get("values_present"):
+        # history: the program was run before (without a reset in between), so its registers still hold measured values - the same
+        # objects are then compiled / optimised / grouped again.  Values appear in RegRef.val (that is where Measurement.apply stores them).
+        w.fault("history:registers_hold_values_of_an_earlier_run")
+        for rr_ in prog.reg_refs.values():
+            rr_.val = 0.37
     seq = list(prog.circuit)
     if len(seq) != len(specops):
         raise RuntimeError("harness: %d commands for %d spec ops" % (len(seq), len(specops)))
